@@ -81,7 +81,7 @@ type Opts struct {
 	NoInstrOneIn int
 	// FailOtherKindOneIn: 1/k of the failed transactions fail with AccountInUse instead of InstructionError/Custom
 	FailOtherKindOneIn int
-	NoPosIndexOneIn    int // not used by default (0): transactions always carry a position index
+	NoPosIndex         bool // no transaction carries the optional position index (archives of the first format generation)
 	// Universe: when non-empty, the non-fee-payer account keys are drawn from this small set
 	Universe []solana.PublicKey
 	// KeyHook lets a test force specific accounts into a transaction (appended to the static keys).
@@ -122,6 +122,7 @@ type Tx struct {
 	LoadedR []solana.PublicKey
 	IsVote  bool
 	NoInstr bool // the message carries no instruction
+	NoPos   bool // archived without the optional position index
 	Failed  bool
 	V0      bool
 	// FailOtherKind: failed with a TransactionError other than InstructionError/Custom
@@ -516,6 +517,12 @@ func Generate(path string, o Opts) (*Model, error) {
 				metaFrame := SplitFrames(tx.MetaZ, km, fan, fnvSum, store)
 				tx.NFramesD, tx.NFramesM = **dataFrame.Total, **metaFrame.Total
 				node := ipldbindcode.Transaction{Kind: KindTransaction, Data: dataFrame, Metadata: metaFrame, Slot: int(slot), Index: pp(pos)}
+				if o.NoPosIndex {
+					// the optional position index absent (null), as in archives written before the field existed
+					var none *int
+					node.Index = &none
+					tx.NoPos = true
+				}
 				c := e.add(&node, ipldbindcode.Prototypes.Transaction, KindTransaction)
 				tx.Cid = c
 				txIndexOfSection[len(e.secs)-1] = tx
